@@ -23,6 +23,7 @@ import XotModel.Lemmas.FinvReads
 import XotModel.Lemmas.FinvPrefix
 import XotModel.Lemmas.FinvIdIndex
 import XotModel.Lemmas.Fcreation
+import XotModel.Lemmas.FinvTrav
 
 namespace XotModel.Props
 open XotModel
@@ -774,6 +775,75 @@ example :
       (Forest.COp.run f (.appendNew 1 (.text ['c']))).1.inv = true ∧
       (Forest.COp.run f (.appendNew 1 (.text ['c']))).1.allHandles = [0, 1, 2, 3, 4, 5] ∧
       (Forest.COp.run f (.namespaceSetNamespace 1 3)).2 = .err .invalidOperation := by
+  decide
+
+end XotModel.Props
+
+/-! # ================================================================================================
+    # TRAVERSALS (branch wt-misc): the iterators of Model/Axes.lean hand out live nodes
+    # ================================================================================================
+
+  The axes model names a node by `(Tree, Path)`, the forest model by handle.  Model/FtravSpec.lean
+  has `HTree.at?`; `HTree.handleAt r p` (the handle the path `p` denotes in the tree `r`),
+  `HTree.pathOf h r` (the path of the handle `h`), `Forest.rootOf? f h` (the parentless tree `h` lives
+  in) are those of Model/FatomSpec2.lean.  `Axes.Trav` (Lemmas/AxesValid.lean) enumerates every node-returning entry point of access.rs /
+  levelorder.rs — parent, first/last_child, next/previous_sibling, ancestors, children, all_children,
+  abnormal_children, namespace nodes, attribute_nodes, reverse_children, descendants, all_descendants,
+  following_/preceding_siblings, following, all_following, preceding, reverse_preorder (both),
+  traverse / all_traverse / reverse_traverse / reverse_all_traverse (node parts of the edges),
+  NodeEdge::next / previous, level_order (node parts), root, top_element, document_element, axis(a) for
+  all 12 axes — and `Trav.result t q` lists the node paths in the answer at `q`. -/
+
+namespace XotModel.Props
+open XotModel
+
+/-- The bridge is consistent: a live handle has a root tree and a path in it, and the path denotes the
+    handle. -/
+theorem C04_live_has_path (f : Forest) (h : Nat) (hl : f.isLive h = true) :
+    ∃ r q, f.rootOf? h = some r ∧ r ∈ f.roots ∧ HTree.pathOf h r = some q ∧ HTree.handleAt r q = some h := by
+  obtain ⟨r, h1, h2, q, h3⟩ := Forest.rootOf?_of_live hl
+  obtain ⟨s, hs, rfl⟩ := HTree.ftrav_pathOf_at? _ r q h3
+  exact ⟨r, q, h1, h2, h3, by simp [HTree.ftrav_handleAt_eq, hs]⟩
+
+/-- **No traversal hands out a removed node.**  In a forest satisfying the invariant, for a tree `r`
+    of the forest and the path `q` of a handle `h` in it: every path `p` that any traversal entry point
+    returns for `(r.erase, q)` exists in `r.erase`, denotes a handle `x = HTree.handleAt r p` (whose
+    path is `p` again, so distinct paths are distinct nodes), and `x` is live and not removed. -/
+theorem C04_traversals_live (f : Forest) (hi : f.Inv) (r : HTree) (hr : r ∈ f.roots) (h : Nat) (q : Path)
+    (hq : HTree.pathOf h r = some q) (tr : Axes.Trav) (p : Path) (hp : p ∈ tr.result r.erase q) :
+    (r.erase.at? p).isSome = true ∧
+    ∃ x, HTree.handleAt r p = some x ∧ HTree.pathOf x r = some p ∧
+      f.isLive x = true ∧ f.isRemoved x = false := by
+  obtain ⟨s, _, h2, h3, h4, h5, h6⟩ := Forest.traversals_live hi hr hq tr hp
+  exact ⟨by rw [h2]; rfl, s.handle, h3, h4, h5, h6⟩
+
+/-- The same from a live handle alone: its root tree and path exist (`C04_live_has_path`) and every
+    traversal from there hands out live nodes only. -/
+theorem C04_traversals_live_of_live (f : Forest) (hi : f.Inv) (h : Nat) (hl : f.isLive h = true) :
+    ∃ r q, f.rootOf? h = some r ∧ HTree.pathOf h r = some q ∧
+      ∀ (tr : Axes.Trav) (p : Path), p ∈ tr.result r.erase q →
+        ∃ x, HTree.handleAt r p = some x ∧ f.isLive x = true ∧ f.isRemoved x = false := by
+  obtain ⟨r, h1, h2, q, h3⟩ := Forest.rootOf?_of_live hl
+  refine ⟨r, q, h1, h3, fun tr p hp => ?_⟩
+  obtain ⟨_, x, hx, _, h5, h6⟩ := C04_traversals_live f hi r h2 h q h3 tr p hp
+  exact ⟨x, hx, h5, h6⟩
+
+/-- The generic fact behind it (tree level, C07's vocabulary): from a valid start path of a well-formed
+    tree every traversal returns valid paths of the same tree. -/
+theorem C04_traversal_paths_valid {t : Tree} {q : Path} (hw : Axes.wf t = true) (h : Axes.Valid t q)
+    (tr : Axes.Trav) : ∀ p ∈ tr.result t q, Axes.Valid t p := Axes.trav_valid hw h tr
+
+/-- Non-vacuity on `gapForest` (`<a>x<b/>y</a>`, text `z`, element): handle 2 (`b`) has path `[1]` in
+    the first tree; `preceding_siblings`, the following axis and `traverse` from the root return paths
+    that denote the handles 2 1 / 3 / 0 1 1 2 2 3 3 0. -/
+example : (gapForest.rootOf? 2).map HTree.handle = some 0 ∧
+    HTree.pathOf 2 gapForest.roots.head! = some [1] := by decide
+example : (Axes.Trav.precedingSiblings.result gapForest.roots.head!.erase [1]).map
+      (HTree.handleAt gapForest.roots.head!) = [some 2, some 1] ∧
+    ((Axes.Trav.axis .following).result gapForest.roots.head!.erase [1]).map
+      (HTree.handleAt gapForest.roots.head!) = [some 3] ∧
+    (Axes.Trav.traverse.result gapForest.roots.head!.erase []).map
+      (HTree.handleAt gapForest.roots.head!) = [some 0, some 1, some 1, some 2, some 2, some 3, some 3, some 0] := by
   decide
 
 end XotModel.Props
